@@ -10,6 +10,7 @@ use trustfall_core::schema::Schema;
 use super::adapter::TableAdapter;
 use super::data_gen::{DataKnobs, DataTable, Dataset, gen_dataset};
 use super::ir_sexp::{args_to_sexp, data_view, ir_to_sexp};
+use super::operand_matrix::{self, mx_cells, mx_dataset, mx_query, mx_schema, op_class, well_typed};
 use super::query_gen::{GenQuery, QueryKnobs, gen_query};
 use super::recurse_subtype::{self, rs_dataset, rs_query, rs_schema};
 use super::run::{args_error_names, compile, real_args};
@@ -117,6 +118,12 @@ pub struct GenStats {
     pub args_rejected: BTreeMap<String, usize>,
     /// feature → number of ACCEPTED queries having it
     pub features: BTreeMap<String, usize>,
+    /// operand-type matrix (directed family, counted apart from the figures above):
+    /// "<operator class>/<var|tag|unary>/<well-typed|ill-typed by the generator's rules>" →
+    /// [cells written, accepted by the real frontend, rejected, kept as world queries]
+    pub matrix: BTreeMap<String, [usize; 4]>,
+    /// why the frontend rejected matrix cells: error names → count
+    pub matrix_rejected_by: BTreeMap<String, usize>,
 }
 
 impl GenStats {
@@ -131,6 +138,11 @@ impl GenStats {
             "frontend_rejected": self.frontend_rejected,
             "args_rejected": self.args_rejected,
             "features_in_accepted_queries": self.features,
+            "operand_type_matrix": {
+                "columns": ["cells", "accepted_by_frontend", "rejected_by_frontend", "kept_as_world_queries"],
+                "by_class": self.matrix,
+                "rejected_by": self.matrix_rejected_by,
+            },
         })
     }
 }
@@ -239,10 +251,88 @@ pub fn gen_recurse_subtype_world(rng: &mut Rng, knobs: &WorldKnobs, stats: &mut 
     World { schema, schema_sexp, real, datasets, queries }
 }
 
+/// Number of operand-type-matrix worlds (quick tiers 1 with a random rotation of the tag placements,
+/// thorough tiers 3 = all rotations) and the cap on the WELL-typed accepted cells kept per world
+/// (quick 96, stratified over the operators; thorough all). Ill-typed accepted cells are always kept.
+pub fn operand_matrix_plan(knobs: &WorldKnobs) -> (usize, usize) {
+    if knobs.n_schemas == 0 {
+        (0, 0)
+    } else if knobs.n_schemas >= 100 {
+        (3, usize::MAX)
+    } else {
+        (1, 96)
+    }
+}
+
+/// One world of the directed family `operand_matrix`: every operator × left property × right operand
+/// (variable / tag of every property, placements rotated by `rotation`) over the fixed matrix schema,
+/// each compiled by the real frontend. Rejected cells are only counted (`GenStats::matrix`); accepted
+/// cells that are ill-typed by the generator's rules are all kept, well-typed ones up to `cap`
+/// (round-robin over the operators). One dataset.
+pub fn gen_operand_matrix_world(rng: &mut Rng, stats: &mut GenStats, rotation: usize, cap: usize) -> World {
+    let schema = mx_schema();
+    let real = schema.to_real();
+    let datasets = vec![mx_dataset(rng, &schema)];
+    let mut ill: Vec<WorldQuery> = vec![];
+    let mut well: BTreeMap<&'static str, Vec<(String, WorldQuery)>> = BTreeMap::new();
+    for cell in mx_cells(rotation) {
+        let ok = well_typed(&cell);
+        let class = format!("{}/{}/{}", op_class(cell.op), cell.right.kind(), if ok { "well-typed" } else { "ill-typed" });
+        let mut gq = mx_query(rng, &cell);
+        if !ok {
+            gq.features.insert(operand_matrix::ILL_TYPED.to_string());
+        }
+        let wq = compile_query(&schema, &real, gq);
+        let row = stats.matrix.entry(class.clone()).or_default();
+        row[0] += 1;
+        match &wq.compiled {
+            Ok(_) => {
+                row[1] += 1;
+                if ok { well.entry(cell.op.proto()).or_default().push((class, wq)) } else {
+                    row[3] += 1;
+                    ill.push(wq);
+                }
+            }
+            Err(Rejection::Frontend(names)) | Err(Rejection::Args(names)) => {
+                row[2] += 1;
+                let mut names = names.clone();
+                names.dedup();
+                *stats.matrix_rejected_by.entry(names.join("+")).or_default() += 1;
+            }
+        }
+    }
+    // well-typed accepted cells: shuffle per operator, then round-robin over the operators up to `cap`
+    let mut groups: Vec<Vec<(String, WorldQuery)>> = well.into_values().collect();
+    for g in &mut groups {
+        for i in (1..g.len()).rev() {
+            g.swap(i, rng.below(i + 1));
+        }
+    }
+    let mut queries = ill;
+    let mut kept = 0usize;
+    while kept < cap && groups.iter().any(|g| !g.is_empty()) {
+        for g in &mut groups {
+            if kept >= cap {
+                break;
+            }
+            if let Some((class, wq)) = g.pop() {
+                stats.matrix.entry(class).or_default()[3] += 1;
+                queries.push(wq);
+                kept += 1;
+            }
+        }
+    }
+    for wq in &queries {
+        count_query(stats, wq);
+    }
+    let schema_sexp = schema.to_sexp();
+    World { schema, schema_sexp, real, datasets, queries }
+}
+
 /// `n_schemas` random worlds followed by the directed worlds (appended, so that the random worlds of a
 /// seed are the same as before the directed families existed): `n_tagged_regex_worlds` tagged-regex
-/// worlds, then as many recurse-from-strict-subtype worlds (every fourth one of variant B); everything
-/// from the one `rng`.
+/// worlds, then as many recurse-from-strict-subtype worlds (every fourth one of variant B), then the operand-type-matrix world(s)
+/// (`operand_matrix_plan`); everything from the one `rng`.
 pub fn gen_worlds(rng: &mut Rng, knobs: &WorldKnobs) -> (Vec<World>, GenStats) {
     let mut stats = GenStats::default();
     let mut worlds: Vec<World> = (0..knobs.n_schemas).map(|_| gen_world(rng, knobs, &mut stats)).collect();
@@ -251,6 +341,11 @@ pub fn gen_worlds(rng: &mut Rng, knobs: &WorldKnobs) -> (Vec<World>, GenStats) {
     }
     for i in 0..n_tagged_regex_worlds(knobs) {
         worlds.push(gen_recurse_subtype_world(rng, knobs, &mut stats, i % 4 == 3));
+    }
+    let (n_matrix, cap) = operand_matrix_plan(knobs);
+    let first = if n_matrix == 1 { rng.below(3) } else { 0 };
+    for i in 0..n_matrix {
+        worlds.push(gen_operand_matrix_world(rng, &mut stats, first + i, cap));
     }
     (worlds, stats)
 }
